@@ -34,8 +34,11 @@ gt_scalar!(i32, I32, core::convert::identity);
 
 /// plain structs with public named fields, listed in declaration order
 macro_rules! gt_struct {
-    ($T:ident < $P:ident >, $name:expr, $n:expr, { $($f:ident),+ }) => {
-        impl<$P: GT> GT for $T<$P> {
+    ($T:ident < $P:ident >, $name:expr, $n:expr, { $($f:ident),+ }) => { gt_struct!($T<$P: Sized>, $name, $n, { $($f),+ }); };
+    // (a bound on the parameter: the projection descriptions are only ever used with float scalars, and a serde impl
+    // that goes through a helper may legitimately require BaseFloat)
+    ($T:ident < $P:ident : $B:path >, $name:expr, $n:expr, { $($f:ident),+ }) => {
+        impl<$P: GT + $B> GT for $T<$P> {
             fn arb() -> Self { $T { $($f: GT::arb()),+ } }
             fn expect(&self, b: &mut Buf) {
                 b.put(Tok::Struct($name, $n));
@@ -54,10 +57,10 @@ gt_struct!(Point1<E>, "Point1", 1, { x });
 gt_struct!(Point2<E>, "Point2", 2, { x, y });
 gt_struct!(Point3<E>, "Point3", 3, { x, y, z });
 gt_struct!(Euler<A>, "Euler", 3, { x, y, z });
-gt_struct!(Perspective<E>, "Perspective", 6, { left, right, bottom, top, near, far });
-gt_struct!(Ortho<E>, "Ortho", 6, { left, right, bottom, top, near, far });
-gt_struct!(PerspectiveFov<E>, "PerspectiveFov", 4, { fovy, aspect, near, far });
-gt_struct!(PlanarFov<E>, "PlanarFov", 5, { fovy, aspect, height, near, far });
+gt_struct!(Perspective<E: cgmath::BaseFloat>, "Perspective", 6, { left, right, bottom, top, near, far });
+gt_struct!(Ortho<E: cgmath::BaseFloat>, "Ortho", 6, { left, right, bottom, top, near, far });
+gt_struct!(PerspectiveFov<E: cgmath::BaseFloat>, "PerspectiveFov", 4, { fovy, aspect, near, far });
+gt_struct!(PlanarFov<E: cgmath::BaseFloat>, "PlanarFov", 5, { fovy, aspect, height, near, far });
 // matrices: the fields are the columns
 gt_struct!(Matrix2<E>, "Matrix2", 2, { x, y });
 gt_struct!(Matrix3<E>, "Matrix3", 3, { x, y, z });
